@@ -1,7 +1,8 @@
 (* Slot-partition invariant (C01, C10): every broker operation preserves store_part_inv; the one-step theorem and the
    invariant for all reachable stores.  The two slot-migration planners are premises (proved in BrokerPartMigrate*.v). *)
 From UM Require Import Base.BytesDef Model.Ranges Model.Broker Proofs.BrokerBase Proofs.BrokerPartRanges Proofs.BrokerPartDefs
-  Proofs.BrokerPartOpsFrame Proofs.BrokerPartOpsFail Proofs.BrokerPartOpsNodes.
+  Proofs.BrokerPartOpsFrame Proofs.BrokerPartOpsFail Proofs.BrokerPartOpsNodes Proofs.BrokerPartOpsCreate
+  Proofs.BrokerPartOpsCompact Proofs.BrokerPartOpsCommit.
 From Coq Require Import ZifyBool ZifyNat ZifyN.
 
 Lemma lift_unit_fst r : fst (lift_unit r) = fst r.
@@ -9,18 +10,6 @@ Proof. destruct r as [s [u|e|]]; reflexivity. Qed.
 
 Lemma lift_unit_panic r : snd (lift_unit r) <> RPanic -> snd r <> Panic.
 Proof. destruct r as [s [u|e|]]; cbn [lift_unit snd]; congruence. Qed.
-
-Section StepInv.
-  Hypothesis migrate_ok : forall s name,
-    store_part_inv s -> snd (migrate_slots s name) <> Panic -> store_part_inv (fst (migrate_slots s name)).
-  Hypothesis scale_down_ok : forall s name n,
-    store_part_inv s -> snd (migrate_slots_to_scale_down s name n) <> Panic ->
-    store_part_inv (fst (migrate_slots_to_scale_down s name n)).
-  (* TEMPORARY: not yet discharged *)
-  Hypothesis add_cluster_part_inv : forall s name node_num cfg choices,
-    store_part_inv s -> store_part_inv (fst (add_cluster s name node_num cfg choices)).
-  Hypothesis commit_migration_part_inv : forall s name rl tag e,
-    store_part_inv s -> store_part_inv (fst (commit_migration s name rl tag e)).
 
 Theorem commit_migration_api_part_inv s name rl tag e clr :
   store_part_inv s -> store_part_inv (fst (commit_migration_api s name rl tag e clr)).
@@ -31,6 +20,13 @@ Proof.
   destruct clr; cbn [fst]; [|exact H1]. apply auto_delete_free_nodes_if_exists_part_inv. exact H1.
 Qed.
 
+
+Section StepInv.
+  Hypothesis migrate_ok : forall s name,
+    store_part_inv s -> snd (migrate_slots s name) <> Panic -> store_part_inv (fst (migrate_slots s name)).
+  Hypothesis scale_down_ok : forall s name n,
+    store_part_inv s -> snd (migrate_slots_to_scale_down s name n) <> Panic ->
+    store_part_inv (fst (migrate_slots_to_scale_down s name n)).
 
   Lemma auto_change_tail_part_inv s1 name expected choices :
     store_part_inv s1 ->
